@@ -511,7 +511,47 @@ fn map_outputs<S: Suite>(ctx: &Ctx, us: &[S::K]) {
     );
 }
 
+/// every value that a checked decoder or a deserializer hands out is on the curve and annihilated by r
+fn decoder_outputs<C: crate::wire::WireCurve + SafeOps>(ctx: &Ctx, de_proj: fn(&[u8], bool) -> Option<C::Proj>, de_aff: fn(&[u8], bool) -> Option<C::Aff>)
+where
+    C::K: crate::refmodel::zcash::WireField,
+{
+    let c = C::curve();
+    for compressed in [true, false] {
+        let mut rng = ctx.rng(&format!("c07.wire.{}.{}", C::NAME, compressed));
+        let (cases, pts) = crate::wire::wire_alphabet::<C>(&mut rng, compressed, true, ctx.tier.pick(64, 1024));
+        let mem = crate::wire::Membership::new(c.clone());
+        mem.preload(&pts);
+        ctx.sweep(
+            &format!("{}.decoder_outputs.{}", C::NAME, if compressed { "compressed" } else { "uncompressed" }),
+            cases.len() as u64,
+            |i| json!({"class": cases[i as usize].class, "bytes": crate::checks::c04::hexb(&cases[i as usize].bytes)}),
+            |i| {
+                let bytes = &cases[i as usize].bytes;
+                let mut outs: Vec<(&str, Pt<C::K>)> = vec![];
+                if let Ok(a) = guard(|| C::lib_decode(bytes, compressed, true)).map_err(Fail::new)? {
+                    outs.push(("EncodedPoint::into_affine", C::pt_of_aff(&a)));
+                }
+                if let Some(p) = guard(|| de_proj(bytes, compressed)).map_err(Fail::new)? {
+                    outs.push(("SerDes::deserialize (projective)", C::pt_of(&p)));
+                }
+                if let Some(a) = guard(|| de_aff(bytes, compressed)).map_err(Fail::new)? {
+                    outs.push(("SerDes::deserialize (affine)", C::pt_of_aff(&a)));
+                }
+                for (what, p) in &outs {
+                    if !c.on_curve(p) || !mem.test(p) {
+                        return Err(Fail::with(format!("{}: {} handed out a point outside the order-r subgroup ({})", C::NAME, what, cases[i as usize].class), json!(C::show(p))));
+                    }
+                }
+                Ok(if outs.is_empty() { "" } else { "accepted: subgroup point" })
+            },
+        );
+    }
+}
+
 pub fn run(ctx: &Ctx) -> (&'static str, &'static str) {
+    decoder_outputs::<RG1>(ctx, |b, c| G1::deserialize(&mut &b[..], c).ok(), |b, c| G1Affine::deserialize(&mut &b[..], c).ok());
+    decoder_outputs::<RG2>(ctx, |b, c| G2::deserialize(&mut &b[..], c).ok(), |b, c| G2Affine::deserialize(&mut &b[..], c).ok());
     let mut rng = ctx.rng("c07.points");
     // predicate
     let p1 = g1_points(&mut rng, ctx.tier.pick(2, 6), ctx.tier.pick(2, 4));
@@ -566,6 +606,6 @@ pub fn run(ctx: &Ctx) -> (&'static str, &'static str) {
     ctx.assume("closure: registers are tracked as known multiples of the generator (exponent arithmetic mod r); equality with the predicted multiple implies subgroup membership because the generator has order r (checked with the reference model)");
     (
         "model_checking",
-        "membership predicate on coordinate pairs from every class (subgroup points, points of each small prime order dividing the cofactor, order l*r, full order, their negatives, off-curve neighbours (y+1, x+1), points of y^2=x^3+b' for five other b' incl. twists, (0,0), identity) against 'on curve and [r]P = O' on big integers; random() under a scripted RNG enumerating all answer sequences with <= 1-2 deviations (x = 0, x without a point, x of a small-order point, x of the generator) within a horizon of 4-8 draws; stateright BFS over a 2-register file of known multiples of the generator under the safe public operations (add, sub, double, negate, mul / affine mul / wNAF mul by {0, r-1, 2^255-1, 2^256-1}, affine round trip, encode->decode and serialize->deserialize in both formats, 2-term multi-scalar multiplication) to depth 2-3 (G1) / 1-2 (G2), each transition compared with the predicted multiple of g; map_to_curve / map2_to_curve outputs incl. map2(u,u)",
+        "membership predicate on coordinate pairs from every class (subgroup points, points of each small prime order dividing the cofactor, order l*r, full order, their negatives, off-curve neighbours (y+1, x+1), points of y^2=x^3+b' for five other b' incl. twists, (0,0), identity) against 'on curve and [r]P = O' on big integers; random() under a scripted RNG enumerating all answer sequences with <= 1-2 deviations (x = 0, x without a point, x of a small-order point, x of the generator) within a horizon of 4-8 draws; stateright BFS over a 2-register file of known multiples of the generator under the safe public operations (add, sub, double, negate, mul / affine mul / wNAF mul by {0, r-1, 2^255-1, 2^256-1}, affine round trip, encode->decode and serialize->deserialize in both formats, 2-term multi-scalar multiplication) to depth 2-3 (G1) / 1-2 (G2), each transition compared with the predicted multiple of g; map_to_curve / map2_to_curve outputs incl. map2(u,u); every value accepted by the checked decoders and by the four point deserializers on the C04 byte-string alphabet",
     )
 }
